@@ -27,6 +27,17 @@ ALL_DEVS = ["cond_skipped_str", "cond_skipped_bool", "bare_equality", "ne_exact"
             "format_prefix_match"]
 
 
+# deviations that only move a program inside the unspecified bands: always part of the machine
+BAND_DEVS = ["last_condition_wins", "last_format_wins", "dims_each_assignment", "format_prefix_match"]
+
+
+def machine_devs():
+    """The machine transcribes the CURRENT tree: a named deviation is switched on while its finding is open
+    (each finding of known_findings names its deviation); a finding marked fixed switches it off."""
+    fixed = {f.get("deviation") for f in C.load_findings() if f["property"] == PID and f["status"] == "fixed"}
+    return [d for d in ALL_DEVS if d not in fixed]
+
+
 def families(tier):
     fam = [("float", "m", False), ("float", "", False), ("int", "m", False), ("int", "", False),
            ("int", "km", False), ("float", "s", False), ("str", "", False), ("bool", "", False),
@@ -36,8 +47,16 @@ def families(tier):
     return fam
 
 
-def mc_module(tier):
-    fams = ", ".join(f'[ty |-> "{t}", nu |-> "{u}", arr |-> {C.tla_str(a)}]' for t, u, a in families(tier))
+def family_groups(tier):
+    """One TLC run per group (bounds the size of one batch of records)."""
+    fam = families(tier)
+    if tier == "quick":
+        return [fam]
+    return [fam[i:i + 3] for i in range(0, len(fam), 3)]
+
+
+def mc_module(tier, fams=None):
+    fams = ", ".join(f'[ty |-> "{t}", nu |-> "{u}", arr |-> {C.tla_str(a)}]' for t, u, a in (fams or families(tier)))
     rows = []
     for pat in A.FMT_PATTERNS:
         cls = " @@ ".join(f'({json.dumps(s)} :> "{A.fmt_class(pat, s)}")' for s in A.FMT_STRINGS)
@@ -50,7 +69,7 @@ MCFmtTable == {" @@ ".join(rows)}
 MCFmtOrder == {C.tla_str(A.FMT_PATTERNS)}
 MCStrOrder == {C.tla_str(A.FMT_STRINGS)}
 MCKs == {C.tla_str(set(ks))}
-MCDevs == {C.tla_str(set(ALL_DEVS))}
+MCDevs == {C.tla_str(set(machine_devs())) if machine_devs() else "{}"}
 ====
 """
 
@@ -133,70 +152,81 @@ def run(replay=None):
             return 1
         return 0
     wd = C.workdir(PID)
-    with open(os.path.join(wd, "DipConstraintsMC.tla"), "w") as f:
-        f.write(mc_module(t))
-    # 1. TLC: enumerate, check that the named deviations explain every machine/ideal difference, emit
-    r1 = C.run_tlc(wd, "DipConstraintsMC", cfg(t))
-    if r1.violated:
-        raise C.MachineryError("DipConstraints: the machine without its named deviations differs from the ideal "
-                               "(the deviation list is incomplete or the spec is inconsistent):\n" + r1.cex[:3000])
-    recs = r1.records
-    if not recs:
-        raise C.MachineryError("TLC emitted no programs")
-    for i, rec in enumerate(recs):
-        rec["_seed"] = sd * 1000003 + i
-    # 2. replay
-    res = C.pmap(replay_record, recs)
     stats = collections.Counter()
     devhits = collections.Counter()
-    nontrivial = 0
     fam_counts = collections.Counter()
-    drift_examples = []
-    for rec, o in zip(recs, res):
-        p = rec["p"]
-        fam_counts[f"{p['ty']}{'[]' if p['dims'] else ''}/{p['nu'] or '-'}"] += 1
-        stats[(rec["ideal"], rec["mach"], o["observed"])] += 1
-        if p["cons"] or p["dims"]:
-            nontrivial += 1
-        for tg in rec["tags"]:
-            if tg in ALL_DEVS:
-                devhits[tg] += 1
-        scen = {"p": p, "ideal": rec["ideal"], "mach": rec["mach"], "tags": rec["tags"], "obl": rec["obl"],
-                "amb": rec["amb"], "_seed": rec["_seed"]}
-        if o["status"] == "violation":
-            tags = rec["tags"] if o.get("as_machine") else []
-            V.fail(scen, rec["ideal"], {"verdict": o["observed"], "error": o.get("detail"), "data": o.get("data")},
-                   o["clause"] + " :: " + o["text"], tags=tags, failure=o["failure"])
-        elif o["status"] == "unspecified":
-            V.unspecified()
-            if o.get("drift") and len(drift_examples) < 5:
-                drift_examples.append(o["text"])
-        elif o["status"] == "drift":
-            V.drift(f"machine predicts {rec['mach']}, code and ideal say {o['observed']}: {o['text']!r}")
-        else:
-            V.ok()
+    drift_examples, samples = [], []
+    amb = collections.Counter()
+    nontrivial = states = trans = nrec = 0
+    for fams in family_groups(t):
+        with open(os.path.join(wd, "DipConstraintsMC.tla"), "w") as f:
+            f.write(mc_module(t, fams))
+        # 1. TLC: enumerate, check that the named deviations explain every machine/ideal difference, emit
+        r1 = C.run_tlc(wd, "DipConstraintsMC", cfg(t))
+        if r1.violated:
+            raise C.MachineryError("DipConstraints: the machine without its named deviations differs from the ideal "
+                                   "(the deviation list is incomplete or the spec is inconsistent):\n" + r1.cex[:3000])
+        recs = r1.records
+        r1.stdout = ""
+        if not recs:
+            raise C.MachineryError("TLC emitted no programs")
+        states += r1.distinct
+        trans += r1.generated
+        for i, rec in enumerate(recs):
+            rec["_seed"] = sd * 1000003 + nrec + i
+        nrec += len(recs)
+        # 2. replay
+        res = C.pmap(replay_record, recs)
+        for rec, o in zip(recs, res):
+            p = rec["p"]
+            fam_counts[f"{p['ty']}{'[]' if p['dims'] else ''}/{p['nu'] or '-'}"] += 1
+            stats[(rec["ideal"], rec["mach"], o["observed"])] += 1
+            if p["cons"] or p["dims"]:
+                nontrivial += 1
+            for tg in rec["tags"]:
+                if tg in ALL_DEVS and tg not in BAND_DEVS:
+                    devhits[tg] += 1
+            scen = {"p": p, "ideal": rec["ideal"], "mach": rec["mach"], "tags": rec["tags"], "obl": rec["obl"],
+                    "amb": rec["amb"], "_seed": rec["_seed"]}
+            if o["status"] == "violation":
+                tags = rec["tags"] if o.get("as_machine") else []
+                V.fail(scen, rec["ideal"], {"verdict": o["observed"], "error": o.get("detail"), "data": o.get("data")},
+                       o["clause"] + " :: " + o["text"], tags=tags, failure=o["failure"])
+            elif o["status"] == "unspecified":
+                V.unspecified()
+                amb["+".join(sorted(rec["amb"])) or "?"] += 1
+                if o.get("drift") and len(drift_examples) < 5:
+                    drift_examples.append(o["text"])
+            elif o["status"] == "drift":
+                V.drift(f"machine predicts {rec['mach']}, code and ideal say {o['observed']}: {o['text']!r}")
+            else:
+                V.ok()
+        step = max(1, len(recs) // 3)
+        samples += [{"text": o["text"], "ideal": r["ideal"], "machine": r["mach"], "observed": o["observed"],
+                     "tags": r["tags"]} for r, o in list(zip(recs, res))[step // 2:: step][:3]]
+        del recs, res
     # non-vacuity of the machine: every named deviation that can decide a verdict does so somewhere
-    deciding = [d for d in ALL_DEVS if d not in ("last_condition_wins", "last_format_wins",
-                                                   "dims_each_assignment", "format_prefix_match")]
+    deciding = [d for d in machine_devs() if d not in BAND_DEVS]
     missing = [d for d in deciding if devhits[d] == 0]
     if missing:
         V.notes.append("deviations never decisive in this run: " + ", ".join(missing))
     V.cov.update({
-        "states": r1.distinct, "transitions": r1.generated,
-        "traces_validated_against_impl": len(recs),
-        "evaluations": len(recs),
+        "states": states, "transitions": trans,
+        "traces_validated_against_impl": nrec,
+        "evaluations": nrec,
         "distinct_nontrivial": nontrivial,
         "rule": "every program TLC reaches in spec/DipConstraints.tla (node family x definition|declaration x <= "
                 f"{1 if t == 'quick' else 2} modifications x <= 3 constraint lines x placement x bystander, pools in the "
                 "spec, exhaustive) is one distinct case; each is rendered once (spelling chosen by the seed) and parsed "
                 "by the real DIP; non-trivial = the node carries at least one constraint line or dimension bound",
-        "samples": [{"text": o["text"], "ideal": r["ideal"], "machine": r["mach"], "observed": o["observed"],
-                     "tags": r["tags"]} for r, o in list(zip(recs, res))[:: max(1, len(recs) // 6)][:6]],
+        "samples": samples[:8],
         "exhaustive": True,
         "families": dict(fam_counts),
         "ideal_machine_observed": {"/".join(k): v for k, v in sorted(stats.items())},
         "deviation_decides": dict(devhits),
+        "unspecified_by_reason": dict(amb),
         "tlc_devs_explain": "ok",
+        "machine_deviations_on": machine_devs(),
         "unspecified_where_code_differs_from_machine": drift_examples,
     })
     V.assumptions += [
